@@ -763,6 +763,9 @@ class Messenger(Connection):
 
             try:  # Allow rejection from any of these via RejectError
                 if msgcls == messages.SessionInit:
+                    if self._sessinit_peer is not None:
+                        # one SESS_INIT per session, there is no renegotiation
+                        raise RejectError(messages.RejectMsg.Reason.UNEXPECTED)
                     if self._as_passive:
                         # After initial validation send reply
                         self._sessinit_this = self.send_sess_init().payload
